@@ -129,6 +129,20 @@ func curated() []uval {
 	} {
 		u = append(u, fromSrc(code))
 	}
+	// functions that print alike but are different objects: closures from two calls of one maker (same depth),
+	// from a maker called at a greater depth, a copy of a closure, named functions with equal bodies and different
+	// names, and the same inside arrays and as map keys. (fromSrc evaluates the code twice: the entry and its "copy"
+	// are two closures too.) Cmp orders functions by their text: all of these are order-equivalent.
+	evalObj("mk=func(n){()=>{n=n+1}}")
+	evalObj("deep=func(){inner=func(n){()=>{n=n+1}};inner(0)}")
+	evalObj("deeper=func(){deep()}")
+	for _, code := range []string{"mk(0)", "mk(0)", "mk(1)", "deep()", "deeper()", "func na(){1}", "func nb(){1}",
+		"[mk(0)]", "[mk(0)]", "[deep()]", "{mk(0):1}", "{mk(0):1}", "{deeper():1}", "[mk(0),mk(0)]", "[deep(),mk(0)]"} {
+		x := fromSrc(code)
+		x.src = "" // re-evaluating the text makes yet another closure: no literal rendition for these
+		u = append(u, x)
+	}
+	u = append(u, mk(evalObj("c1=mk(0)"), evalObj("c2=c1"), "")) // a closure and a copy of it (the same object)
 	// a big map that was shrunk below the small threshold by deletions (still *BigMap), next to the same small map
 	bm := object.NewMapSize(6)
 	for i := int64(1); i <= 6; i++ {
@@ -650,7 +664,9 @@ func runC12(c *Ctx) {
 	}
 	state = eval.NewState()
 	err := object.CreateFunction(object.Extension{Name: "uv", MinArgs: 1, MaxArgs: 1, ArgTypes: []object.Type{object.INTEGER},
-		Callback: func(_ any, _ string, args []object.Object) object.Object { return cur[args[0].(object.Integer).Value].obj }})
+		Callback: func(_ any, _ string, args []object.Object) object.Object {
+			return cur[args[0].(object.Integer).Value].obj
+		}})
 	if err != nil {
 		panic(err)
 	}
